@@ -17,7 +17,34 @@ import (
 )
 
 const verifDir = "/verif"
-const repoDir = "/repo"
+
+// repoDir is the tree under test. SIM_REPO overrides it (used to run a check
+// against a scratch worktree carrying a deliberate mutation); SIM_BUILD then
+// selects a private build directory.
+var repoDir = envOr("SIM_REPO", "/repo")
+var buildDir = envOr("SIM_BUILD", "/verif/build")
+
+// Evidence and replay files of runs against a scratch tree stay out of /verif.
+func evidenceDir() string {
+	if os.Getenv("SIM_BUILD") != "" {
+		return buildDir + "/evidence"
+	}
+	return verifDir + "/evidence"
+}
+
+func replaysDir() string {
+	if os.Getenv("SIM_BUILD") != "" {
+		return buildDir + "/replays"
+	}
+	return verifDir + "/replays"
+}
+
+func envOr(k, d string) string {
+	if v := os.Getenv(k); v != "" {
+		return v
+	}
+	return d
+}
 
 func die2(format string, a ...any) {
 	fmt.Fprintf(os.Stderr, "simcheck: "+format+"\n", a...)
@@ -65,7 +92,7 @@ func main() {
 			die2("usage: simcheck build <world>|all")
 		}
 		if os.Args[2] == "all" {
-			for _, w := range worldOrder {
+			for _, w := range worldOrder() {
 				if _, err := buildWorld(worlds[w]); err != nil {
 					die2("build %s: %v", w, err)
 				}
